@@ -189,11 +189,48 @@ MOS += [
              only_via(SL, SNAP_OK, Arm(r"^discr\(try\(call Snapshot::validate_and_normalize\)\)$", {"0"}, name="validate_and_normalize()? -> Ok")),
              precedes(SL, call(r"= crc32fast::hash\(", name="crc32fast::hash(payload)"), call(r"= bincode::deserialize", name="bincode::deserialize*"))),
        functions=[("persistence.rs", "load")]),
+    MO("O13.8/fallback_order", "Snapshot::load_with_validation: fallback candidates are all snapshot files, newest first, scanned from just after the primary — or from the newest when the primary named by the MANIFEST does not exist",
+       lambda F: fallback_order(F), functions=[("persistence.rs", "load_with_validation")], role="fallback-skips-newest-snapshot"),
     MO("O13.4/load_with_validation", "Snapshot::load_with_validation: every Ok comes from a successful Snapshot::load (primary or a fallback file); the fallback flag is true exactly on the fallback arm",
        allof(never("persistence::Snapshot::load_with_validation", stmt(r"^_0 = Result::<\(Snapshot, bool\), anyhow::Error>::Ok\(", name="return Ok((snapshot, flag))"),
                    cut=[Arm(r"^discr\(call Snapshot::load::<", {"0"}, name="Snapshot::load -> Ok")]),),
        functions=[("persistence.rs", "load_with_validation")]),
 ]
+
+
+def fallback_order(F):
+    """Snapshot::load_with_validation, fallback search: the candidates are every snapshot file of the directory, newest first
+    (sort key Reverse(number)), the scan starts right after the primary's own position and — when the primary is not in the
+    directory at all (a damaged name in the MANIFEST) — at the newest file (skip count = position + 1, else 0), and no candidate
+    is filtered out before.  Recognised structurally; any other shape is left to the native scenario (see run())."""
+    import vlib.mir as _M
+    from vlib.mirflow import origin as _o
+    f = "persistence::Snapshot::load_with_validation"
+    fc = FnCheck(F, f)
+    if fc.fn is None:
+        return [fc.missing()]
+    fn = fc.fn
+    calls = [(b.idx, b) for b in fn.blocks.values() if not b.cleanup and b.kind == "call"]
+    sort = [b for _i, b in calls if re.search(r"sort_by_key::<(std::cmp::)?Reverse<u64>", b.term or "")]
+    skip = [b for _i, b in calls if re.search(r"IntoIter<\(u64, (std::path::)?PathBuf\)> as Iterator>::skip\(", b.term or "")]
+    retain = [b for _i, b in calls if re.search(r"Vec::<\(u64, (std::path::)?PathBuf\)>::(retain|truncate|drain|pop|remove|swap_remove|dedup)", b.term or "")]
+    loads = [b for _i, b in calls if re.search(r"= Snapshot::load::<&(std::path::)?PathBuf>\(", b.term or "")]
+    smp = {"fn": fc.name, "kind": "PROVENANCE", "sort_by_key_reverse": len(sort), "skip": len(skip), "filters": [(_b.term or "")[:60] for _b in retain]}
+    if not sort or len(skip) != 1 or retain or len(loads) != 1:
+        return [Result("inconclusive", "fallback candidate selection is not in the recognised form (newest-first sort, no filtering, one skip(position+1 or 0)): %s" % smp, sample=smp)]
+    a = _M._split_top(skip[0].args)
+    o = _o(fn, a[1]) if len(a) > 1 else "?"
+    ok = bool(re.search(r"^call Option::<usize>::unwrap_or$", o))
+    # the unwrap_or default must be 0 and its operand a map over and_then(position)
+    dflt = [b for _i, b in calls if re.search(r"Option::<usize>::unwrap_or\(", b.term or "")]
+    ok = ok and len(dflt) == 1 and _M._split_top(dflt[0].args)[1].strip() == "const 0_usize"
+    lo = _o(fn, _M._split_top(loads[0].args)[0])
+    ok = ok and bool(re.search(r"Take<(std::iter::)?Skip<", lo))
+    r = fc.reachable(call(r"= Snapshot::load::<&(std::path::)?PathBuf>\(", name="Snapshot::load(fallback)"))
+    smp["skip_amount"] = o[:100]
+    if not ok:
+        return [Result("inconclusive", "fallback scan start is not `position of the primary + 1, else 0`: %s" % o[:120], queries=r.queries, seconds=r.seconds, sample=smp)]
+    return [Result("holds", "candidates sorted newest-first, unfiltered; the scan skips up to and including the primary, or nothing when the primary is absent", queries=r.queries, seconds=r.seconds, sample=smp)]
 
 
 def run(tier, seed, notes):
@@ -205,4 +242,14 @@ def run(tier, seed, notes):
             if r.get("reproduced") is not None:
                 o.replay = r
                 o.detail += " | native replay: " + str(r.get("output"))[:220]
+        if o.oid == "O13.8/fallback_order" and o.verdict == "inconclusive" and ("recognised form" in (o.detail or "") or "scan start" in (o.detail or "")):
+            # not the recognised selection: let the real code decide on a MANIFEST whose snapshot name is damaged into a
+            # non-existent, lower number (the newest snapshot must still be found, or start-up refused)
+            r = RP.run_scenario(["manifest-names-missing-snapshot"], timeout=300, notes=notes)
+            if r.get("reproduced"):
+                o.verdict = "violated"
+                o.replay = r
+                o.detail += " | native replay: " + str(r.get("output"))[:300]
+            elif r.get("reproduced") is False:
+                o.detail += " | native replay did not reproduce a stale start-up: " + str(r.get("output"))[:160]
     return obls
